@@ -44,6 +44,8 @@ let () =
           (match P21Skip.skip_inst (bytes_of_string data) with
            | Some rest -> Printf.printf "K 1 - 3 %d\n" (Stdlib.List.length rest)
            | None -> Printf.printf "K 0 - E\n")
+        | 'P' ->
+          Printf.printf "P 1 - 3 %d\n" (Stdlib.List.length (P21Skip.token_separator (bytes_of_string data)))
         | 'Y' ->
           let ((v, sev), s) = P21Bin.read_binary s0 nul true in
           Printf.printf "Y %d %s %d %d %d %d\n" (match v with Some _ -> 1 | None -> 0)
